@@ -30,6 +30,7 @@ GHOST_SORTS = {
     "ghost.plen": IntS, "ghost.ptopic": arr(IntS, StrS), "ghost.ppayload": arr(IntS, StrS), "ghost.pqos": arr(IntS, IntS),
     "ghost.slen": IntS, "ghost.stopic": arr(IntS, StrS), "ghost.sqos": arr(IntS, IntS),
     "ghost.tasks": IntS,
+    "ghost.broker_errors": IntS,  # number of times the broker message iterator raised MqttError (the only thing that ends reception)
     # persistence (A-FS): content of the persistence file, whether it exists, number of completed saves, transport connection state
     "ghost.disk": StrS, "ghost.other_disk": StrS, "ghost.file_exists": BoolS, "ghost.saves": IntS, "ghost.connected": BoolS, "ghost.saver_pos": IntS, "ghost.slept": IntS, "ghost.dumped_keys": arr(IntS, BoolS),
 }
